@@ -41,6 +41,7 @@ type vcAttr struct {
 	Age       int      `json:"age"`
 	About     string   `json:"about"`   // administrative record: the catalogue bundle the status report is about ("" = some unknown bundle)
 	RKind     string   `json:"rkind"`   // received | forwarded | delivered | deleted
+	RptNone   bool     `json:"rptnone"` // report-to is dtn:none although reports are requested
 	UnkMore   int      `json:"unkmore"` // number of further unsupported blocks (same flags) next to the first, at most 2
 	Desc      bool     `json:"desc"`    // extension blocks on the wire in descending order of their numbers (a foreign node's choice)
 	Lsd       int      `json:"lsd"`     // > 0: the bundle carries DTLSR link-state data of node dtn://lsorigin/ with this timestamp
@@ -486,6 +487,8 @@ func (w *vcWorld) build(name string) bpv7.Bundle {
 		pb.ReportTo = bpv7.MustNewEndpointID("dtn://alias/inbox")
 	} else if a.RptLocal {
 		pb.ReportTo = bpv7.MustNewEndpointID("dtn://node/app")
+	} else if a.RptNone {
+		pb.ReportTo = bpv7.DtnNone()
 	} else if len(a.Req) > 0 {
 		pb.ReportTo = bpv7.MustNewEndpointID("dtn://rpt/")
 	}
